@@ -345,6 +345,7 @@ func c19(c *Ctx) {
 	}
 	r.Floor("G2", n2, 3)
 	c.checkWordList()
+	c.checkDupePredicate()
 
 	// ---- G3
 	c.checkEntryPairing()
@@ -691,4 +692,64 @@ func linkRootPath(c *Ctx, v ssa.Value) string {
 		}
 	}
 	return "?"
+}
+
+// checkDupePredicate: the sibling-uniqueness predicate compares the candidate with the LAST "/"-segment of each
+// child's Path — the same segment packDirectory uses as the link name. Accepted idioms: slicing after
+// strings.LastIndex(Path, "/"), the last element of strings.Split(Path, "/"), path.Base / filepath.Base.
+func (c *Ctx) checkDupePredicate() {
+	r := c.R
+	n := 0
+	for _, fn := range c.G.Funcs() {
+		rel, ok := c.P.PkgOf(fn)
+		if !ok || rel != "testutil" || fn.Name() != "isDupe" {
+			continue
+		}
+		n++
+		key := core.FuncName(fn) + "/last-segment"
+		lastSeg, firstSeg := false, ""
+		for _, ci := range core.CallsIn(fn) {
+			f := ci.Common().StaticCallee()
+			if f == nil || f.Pkg == nil {
+				continue
+			}
+			pathArg := func(i int) bool {
+				return i < len(ci.Common().Args) && strings.HasSuffix(c.varPath(ci.Common().Args[i], 0), ".Path")
+			}
+			sepIsSlash := func(i int) bool {
+				if i >= len(ci.Common().Args) {
+					return false
+				}
+				k, ok := ci.Common().Args[i].(*ssa.Const)
+				return ok && k.Value != nil && k.Value.Kind() == constant.String && constant.StringVal(k.Value) == "/"
+			}
+			switch f.Pkg.Pkg.Path() + "." + f.Name() {
+			case "strings.LastIndex":
+				if pathArg(0) && sepIsSlash(1) {
+					lastSeg = true
+				}
+			case "path.Base", "path/filepath.Base":
+				if pathArg(0) {
+					lastSeg = true
+				}
+			case "strings.Split":
+				if pathArg(0) && sepIsSlash(1) {
+					lastSeg = true // (the index is checked by G1's link-name rule in packDirectory; here only presence)
+				}
+			case "strings.Index", "strings.Cut", "strings.SplitN", "strings.IndexByte":
+				if pathArg(0) {
+					firstSeg = f.Name()
+				}
+			}
+		}
+		var bad []string
+		if firstSeg != "" {
+			bad = append(bad, "the child's name is taken relative to the FIRST \"/\" of its Path (strings."+firstSeg+"): below the root it is never equal to a bare candidate name, so duplicates pass")
+		}
+		if !lastSeg {
+			bad = append(bad, "the child's name is not derived from the last \"/\"-segment of its Path")
+		}
+		r.Check(len(bad) == 0, "G2", key, c.P.Pos(fn.Pos()), "sibling names are compared by the last \"/\"-segment of Path, the segment packDirectory stores as link name", strings.Join(bad, "; "))
+	}
+	r.Floor("G2/predicate", n, 1)
 }
